@@ -259,8 +259,8 @@ def failing_call(rng, api="validate"):
     if rng.random() < 0.5:
         kind = rng.choice(list(BAD_SHAPES))
         o2 = {"advanced": True} if kind in ("rule_load", "function_load", "rule_runtime") else {}
-        if kind == "meta_reject":
-            o2["meta_shacl"] = True
+        if kind == "meta_reject" or rng.random() < 0.35:
+            o2["meta_shacl"] = True      # the SHACL-SHACL pre-check loads the shapes document by itself: it can fail there, too
         return [("call", "validate", ("slot", "D0"), ("text", PFX + BAD_SHAPES[kind]), None, o2, None)]
     point = rng.choice(INJECT_POINTS)
     api2 = "rules" if "rule_expand" in point[0] else "validate"
@@ -418,7 +418,7 @@ def gen_history(seed, index):
                 o2 = dict(opts)
                 if kind in ("rule_load", "function_load", "rule_runtime"):
                     o2["advanced"] = True
-                if kind == "meta_reject":
+                if kind == "meta_reject" or rng.random() < 0.3:
                     o2["meta_shacl"] = True
                 as_text = rng.random() < 0.5
                 if as_text:
